@@ -199,7 +199,7 @@ CLAIMS = {
 }
 
 TECHNIQUE = ("Lean 4 machine-checked proof over a model of the code; tie = translators (funfit.py, dataset tables, vector "
-             "arithmetic, the loops of the window strategies, the two-pointer scans regenerated into Lean and proved equal to the model) + "
+             "arithmetic, the loops of the window strategies, the two-pointer scans, the effect order of the Weaver methods regenerated into Lean and proved equal to the model) + "
              "differential correspondence of the native model driver with /repo on generated inputs, memory layouts, "
              "object histories, thread schedules and interpreter settings")
 
@@ -219,6 +219,11 @@ def main():
         if pid not in CLAIMS or pid not in BUILT:
             continue
         ref, text, note = CLAIMS[pid]
+        if pid in ("C08", "C09", "C20"):
+            text += (" The order of effects inside every Weaver method (assignments, calls, raises, warnings, asserts) is "
+                     "regenerated from weaver.py's AST by translator T6 and compared with the expected table by `decide` on "
+                     "every run (TWV.Tie.WeaverEffects: validation precedes assignment, nothing interrupts between the "
+                     "assignments, no state update inside an assert).")
         if pid in ("C01", "C10", "C11"):
             text += (" The three two-pointer scans and their dispatcher are regenerated from sorted_array_utils.py's AST as "
                      "small-step state machines by translator T5 and proved equal to the model for all lists on every run "
